@@ -11,7 +11,23 @@ VDB_RULE = ("vdb stream: one evaluation = one operation (commit on frontier / on
             "values include empty and [0]; every open view is re-validated in full against a shadow map after later "
             "commits/pops; distinct = distinct (op,result) lines")
 
+LEDGER_RULE = ("ledger stream: one evaluation = one line: an accepted account block of a generated history on a real node "
+               "(transfers with boundary amounts and unknown tokens, receives by addressee / third account / repeated, token "
+               "issue/mint/burn/update with valid and invalid arguments, calls to every method of every embedded contract "
+               "with generated ABI arguments, under 0-3 activated sporks, one history in five below the receiver-enforcement "
+               "height) replayed through the Lean ledger model, or a state query after a momentum (every non-zero balance, "
+               "every token's supply/max/flags, number of unreceived sends); monitors: conservation sum at every momentum and "
+               "every pool state, pending sets, at-most-once receive, inbox FIFO, exact refund; distinct = distinct lines")
+
 PROPS = {
+    "C01": {
+        "module": "ZenonVerif.Props.C01",
+        "streams": [S("ledger", 60, 3000)],
+        "rule": LEDGER_RULE,
+        "partial": "methods of non-token contracts are parameters of the model (their observed descendant sends are inputs, "
+                   "checked for funding and exact refund); genesis consistency is C20",
+        "assumptions": ["hashes are opaque identifiers (collision-free)"],
+    },
     "C07": {
         "module": "ZenonVerif.Props.C07",
         "streams": [S("vdb", 400, 20000)],
